@@ -231,9 +231,14 @@ func vVecBuilderSys(cfg vVecCfg, state int) *vBuilderSys[VectorSearch] {
 	}
 	ix := func(name string, f func()) { sys.Menu = append(sys.Menu, vBStep[VectorSearch]{Name: name, Idx: f}) }
 	obj("WithQuery(q1)", func(s VectorSearch) VectorSearch { return s.WithQuery(vCopyVec(q1)) })
-	obj("WithQuery(q0,q1)", func(s VectorSearch) VectorSearch { return s.WithQuery(vCopyVec(q0), vCopyVec(q1)) })
 	obj("WithNode(1)", func(s VectorSearch) VectorSearch { return s.WithNode(1) })
-	obj("WithNode(2,3)", func(s VectorSearch) VectorSearch { return s.WithNode(2, 3) })
+	if cfg.Kind != "pq" && cfg.Kind != "ivfpq" {
+		// multi-query steps are left out for the quantising kinds: documents that share
+		// their codes tie, a tie at the PER-QUERY cut is broken arbitrarily, and after the
+		// aggregation the choice shows in the middle of the list
+		obj("WithQuery(q0,q1)", func(s VectorSearch) VectorSearch { return s.WithQuery(vCopyVec(q0), vCopyVec(q1)) })
+		obj("WithNode(2,3)", func(s VectorSearch) VectorSearch { return s.WithNode(2, 3) })
+	}
 	obj("WithNode()", func(s VectorSearch) VectorSearch { return s.WithNode() })
 	obj("WithK(1)", func(s VectorSearch) VectorSearch { return s.WithK(1) })
 	obj("WithK(-1)", func(s VectorSearch) VectorSearch { return s.WithK(-1) })
@@ -277,7 +282,10 @@ func vVecBuilderShard(c *vCtx, cfg vVecCfg, depth int) {
 // ---------------------------------------------------------------------------
 // BM25
 
-var vBuilderTexts = []string{"apple", "apple banana", "apple apple cherry", "banana cherry date egg", "cherry", "date date apple banana fig"}
+// every document has its own length (and the replacement text another one): two documents
+// never tie on a query term, so that the per-query cut of a multi-query search never
+// falls on a tie (which the implementation may break either way)
+var vBuilderTexts = []string{"apple", "apple banana", "apple apple cherry", "banana cherry date egg", "cherry egg egg fig fig fig", "date date apple banana fig grape grape"}
 
 func vTextBuilderSys(state int) *vBuilderSys[TextSearch] {
 	var idx *BM25SearchIndex
@@ -327,7 +335,7 @@ func vTextBuilderSys(state int) *vBuilderSys[TextSearch] {
 		idx.NewSearch().WithQuery("cherry date").WithDocumentIDs(3, 4).WithK(2).Execute()
 	})
 	ix("index.Add(6)", func() { idx.Add(6, vBuilderTexts[5]) })
-	ix("index.Add(1,replace)", func() { idx.Add(1, "banana fig fig") })
+	ix("index.Add(1,replace)", func() { idx.Add(1, "banana fig fig fig fig grape grape grape") })
 	ix("index.Remove(3)", func() { idx.Remove(3) })
 	ix("index.Flush()", func() { idx.Flush() })
 	return sys
